@@ -75,6 +75,7 @@ class Schedules(Suite):
                                     "D": D, "tie": tie, "progress": False, "ev": ev}
                             if c is not None:
                                 case["cancelAt"] = c
+                                case["tokenKind"] = ["plain", "linked", "duck"][k % 3]
                             out.append(G.place(case))
                             if c is not None and k % 4 == 0:
                                 # the same schedule against a peer that closed its end / stopped reading
@@ -83,8 +84,9 @@ class Schedules(Suite):
         # cancelled before sending / token present but never fired
         for tie in ("events", "timers", "io"):
             for ev in ([], [[0, G.sym_event("N")]], [[5, {"k": "resp", "id": "$ID", "p": {"x": 1}}]]):
-                out.append(G.place({"id": {"s": "abc"}, "method": "m", "params": None, "D": 2 * P, "tie": tie, "pre": True, "ev": [list(e) for e in ev]}))
-                out.append(G.place({"id": {"s": "abc"}, "method": "m", "params": None, "D": 2 * P, "tie": tie, "hasToken": True, "ev": [list(e) for e in ev]}))
+                for tk in ("plain", "linked", "duck"):
+                    out.append(G.place({"id": {"s": "abc"}, "method": "m", "params": None, "D": 2 * P, "tie": tie, "pre": True, "tokenKind": tk, "ev": [list(e) for e in ev]}))
+                    out.append(G.place({"id": {"s": "abc"}, "method": "m", "params": None, "D": 2 * P, "tie": tie, "hasToken": True, "tokenKind": tk, "ev": [list(e) for e in ev]}))
         # progress with a params dict that already carries a (stale) progress token: the request must
         # go out with the token the callback is registered under, and notifications bearing it count
         for tie in ("events", "io"):
@@ -142,6 +144,8 @@ class Schedules(Suite):
             tags.append("cbraise")
         if case.get("writer"):
             tags.append("w-" + case["writer"])
+        if case.get("tokenKind", "plain") != "plain" and (case.get("cancelAt") is not None or case.get("pre") or case.get("hasToken")):
+            tags.append("tok-" + case["tokenKind"])
         n = len(case["ev"])
         tags.append("none" if n == 0 else "few" if n < 8 else "burst" if n < 40 else "flood")
         return "/".join(tags)
@@ -248,7 +252,8 @@ class SharedToken(Suite):
                                 reqs.append(G.place({"id": [{"s": f"req-{i}"}, None, {"i": i + 1}][(k + i) % 3], "method": "tools/call",
                                                      "params": {"name": "x"}, "D": [2 * P, P + 100, 3 * P][(k + i) % 3],
                                                      "progress": False, "ev": [list(e) for e in h]}))
-                            out.append({"mode": mode, "tie": tie, "fire": fire, "gaps": [[0, 0], [5, 0], [P, 1]][k % 3][: n - 1] + [0], "reqs": reqs})
+                            out.append({"mode": mode, "tie": tie, "fire": fire, "gaps": [[0, 0], [5, 0], [P, 1]][k % 3][: n - 1] + [0], "reqs": reqs,
+                                        "tokenKind": ["plain", "linked", "duck"][k % 3]})
         rng = ctx.sub_rng("c14-shared", budget)
         for i in range(600 if budget == "quick" else 20000):
             n = rng.choice([2, 2, 3])
